@@ -327,6 +327,32 @@ fn w_faults(ctx: &mut Ctx) {
                 rep[off] = c;
                 edits.push((format!("replace:{}", c as char), rep));
             }
+            // token-level corruptions at this site: a literal or a number replaced as a whole
+            let at_token_start = off == 0 || !(bytes[off - 1].is_ascii_alphanumeric() || matches!(bytes[off - 1], b'.' | b'-' | b'+' | b'"'));
+            if at_token_start {
+                let rest = &bytes[off..];
+                let mut tok_len = 0;
+                let mut repls: Vec<&str> = vec![];
+                for (lit, with) in [("true", &["false", "null", "0"][..]), ("false", &["true", "null", "1"][..]), ("null", &["0", "true", "[]"][..])] {
+                    if rest.starts_with(lit.as_bytes()) {
+                        tok_len = lit.len();
+                        repls = with.to_vec();
+                    }
+                }
+                if tok_len == 0 && (rest[0].is_ascii_digit() || rest[0] == b'-') {
+                    tok_len = rest.iter().take_while(|c| c.is_ascii_digit() || matches!(**c, b'.' | b'-' | b'+' | b'e' | b'E')).count();
+                    repls = vec!["0", "-1", "1e308", "18446744073709551615", "null", "0.5", "[]", "\"x\""];
+                }
+                for r in repls {
+                    let mut d = bytes[..off].to_vec();
+                    d.extend_from_slice(r.as_bytes());
+                    d.extend_from_slice(&bytes[off + tok_len..]);
+                    edits.push((format!("token:{r}"), d));
+                }
+                if tok_len > 0 {
+                    ctx.bump("fault_token_sites");
+                }
+            }
             for (kind, data) in edits {
                 ctx.eval(1);
                 match load_bytes(&data, None) {
